@@ -13,6 +13,7 @@ import (
 type replayFile struct {
 	Entry  string                     `json:"entry"`
 	Inputs map[string]json.RawMessage `json:"inputs"`
+	Params map[string]int             `json:"params"`
 }
 
 type Result struct {
@@ -94,6 +95,10 @@ func NondetString(name string, maxLen int, alphabet string) string {
 	}
 	return string(out)
 }
+
+func NondetStringN(name string, n int, alphabet string) string { return NondetString(name, n, alphabet) }
+
+func Param(name string) int { return rf.Params[name] }
 
 func NondetFloat32(name string) float32 { return math.Float32frombits(uint32(num(name))) }
 
